@@ -255,6 +255,12 @@ def _query(g):
                 fv = g.choice(["s", "o", "o"])
                 where.append({"t": "group", "p": [{"t": "bgp", "triples": [[V("gx"), g.pick(PREDS), V("gy")]]}, {"t": "filter", "e": g.choice([["bound", fv], ["!bound", fv], ["!=", V(fv), V("gx")]])}]})
                 outer_bgp_vars = [v for v in outer_bgp_vars if v != fv]
+            elif g.chance(0.4):
+                # a group that holds nothing but an OPTIONAL (its left side is the empty pattern) sharing a variable with its neighbour
+                ov = g.choice(["o", "s"])
+                where.append({"t": "group", "p": [{"t": "optional", "p": [{"t": "bgp", "triples": [[V("gz"), g.pick(PREDS), V(ov)]]}]}]})
+                # (pre-binding a variable that a nested OPTIONAL mentions is not the same as joining a VALUES row afterwards)
+                outer_bgp_vars = [v for v in outer_bgp_vars if v != ov]
             else:
                 where.append({"t": "group", "p": [_bgp(g)]})
         else:
